@@ -229,7 +229,7 @@ def compute(fn: str, spec: Dict[str, Any], site: Optional[str], args: Tuple[Any,
     if kind == "nopickle":
         return NoPickle(term(fn, full, kwargs)[1])
     if kind == "nocopy":
-        return NoCopy(term(fn, full, kwargs)[1])
+        return NoCopy(term(fn, full, kwargs)[1] + (f"#{op}" if spec.get("stamp") else ""))
     if kind == "int":
         return zlib.crc32(_canon((fn, full, tuple(sorted(kwargs.items())))).encode()) % 6 + 1
     if kind == "id":
@@ -276,6 +276,10 @@ def make_body(fn: str, spec: Dict[str, Any]) -> Callable[..., Any]:
         try:
             ex.node_gate(key, tok)
             if key in ex.failing:
+                if zlib.crc32(key.encode()) & 1:
+                    # the user's exception has an explicit cause of its own (raise ... from low_level): what tawazi's
+                    # exception carries as its cause is still the exception the node raised
+                    raise InjectedError(key) from ValueError("low-level reason of " + key)
                 raise InjectedError(key)
             val = compute(fn, spec, site, data, kwargs, ex.op)
         except BaseException:
